@@ -633,7 +633,12 @@ def compute_next_steps(
                 end -= 1
 
             assert actual_history[end]["type"] == "UtteranceUserActionFinished"
-            actual_history = actual_history[0:end]
+            # The context updates of the hidden turn stay: every other consumer computes the context
+            # from the complete list of events (`compute_context`), and an action result that equals
+            # that context does not create a new ContextUpdate event.
+            actual_history = actual_history[0:end] + [
+                e for e in actual_history[end:] if e["type"] == "ContextUpdate"
+            ]
         else:
             actual_history.append(event)
 
